@@ -85,7 +85,26 @@ def run(ck):
     # ---------------- R3 ----------------
     ti = prog.cls(H + "TransportImpl")
     tfields = [x for x in ti["fields"] if "chrono" in x["type"] or x["name"].lower().endswith("timeout_")]
-    ck.require(len(tfields) >= 2, "time-out fields of TransportImpl: %d" % len(tfields))
+    if len(tfields) < 2:
+        # the other place the time-outs can live: in the Http::Handler, next to the size limits, read by the idle scan through getters.
+        # They must then reach the handler on both configuration orders, like the size limits: Endpoint::init (for a handler set
+        # before) and Endpoint::setHandler (for one set after) both hand options.<x>Timeout_ to the setter
+        cip0 = lib.single(prog, TI + "checkIdlePeers")
+        getters = sorted({e.get("callee") for g_ in lib.region(prog, cip0, within=lambda g_: g_.cls == cip0.cls and g_.cls)
+                          for e in g_.events("call") if re.match(r"^%sHandler::get\w*Timeout$" % re.escape(H), e.get("callee") or "")})
+        ck.require(len(getters) >= 2, "time-out fields of TransportImpl: %d (and checkIdlePeers reads %d time-outs from the handler)" % (len(tfields), len(getters)))
+        for gt in getters:
+            setter = gt.replace("::get", "::set", 1)
+            for fnname in ("init", "setHandler"):
+                fn = lib.single(prog, EP + fnname)
+                cs = [e for e in fn.calls(lambda e: (e.get("callee") or "") == setter)]
+                ok = bool(cs) and all(strip_tmpl((e["args"][0].get("f") or "")).startswith(EP + "Options::") for e in cs)
+                ck.ob("C14-R3", "Endpoint::%s/%s" % (fnname, setter.rsplit("::", 1)[1]), ok, cs[0].loc if cs else fn.loc, fn,
+                      "%s(options)" % setter.rsplit("::", 1)[1] if ok else
+                      "the idle scan reads this time-out from the handler, but Endpoint::%s does not hand the configured value to %s: with this "
+                      "order of init() and setHandler() the handler keeps its default and the configured time-out is never enforced"
+                      % (fnname, setter.rsplit("::", 1)[1]))
+        tfields = []
     setters = {}
     for f2 in prog.funcs.values():
         if f2.cls == H + "TransportImpl" and f2.base.rsplit("::", 1)[1].startswith("set"):
@@ -202,7 +221,21 @@ def run(ck):
         ck.ob("C14-R4", "phase-covered:%s" % full.rsplit("::", 1)[1], full in cmp_ids, cip.loc, cip, "checkIdlePeers compares step()->id() with %s::Id" % full.rsplit("::", 1)[1])
     # both time-outs consulted: every place that declares a peer idle -- a push into the local list of idle peers, or a non-false
     # return of the bool predicate that guards it -- is decided by a condition that mentions bodyTimeout_
-    BT, HT = "f:" + TI + "bodyTimeout_", "f:" + TI + "headerTimeout_"
+    class _Refs(object):
+        """the member, or a local of the scan initialised from the handler's getter of the same time-out"""
+        def __init__(self, member, getter):
+            self.names = {"f:" + TI + member}
+            for g_ in creg:
+                for d_ in g_.events("decl"):
+                    if d_.get("var") and (d_.get("icall") or "").endswith("Handler::" + getter):
+                        self.names.add("v:" + d_["var"])
+
+        def __eq__(self, other):
+            return other in self.names
+
+        def __hash__(self):
+            return 0
+    BT, HT = _Refs("bodyTimeout_", "getBodyTimeout"), _Refs("headerTimeout_", "getHeaderTimeout")
     refs_all = set()
     for g_ in creg:
         for b in g_.blocks.values():
@@ -213,8 +246,8 @@ def run(ck):
     ck.require(len(idle_push) >= 1, "idlePeers.push_back sites: %d" % len(idle_push))
 
     def guarded_by_body_timeout(fn_, e):
-        guards = [b for b in fn_.blocks.values() if b.term and BT in (b.term.get("refs") or []) and any(cfg.edge_dominates(fn_, b.id, k_, e) for k_ in (0, 1) if len(b.succs) > k_ and b.succs[k_] is not None)]
-        lor_guards = [b for b in fn_.blocks.values() if b.term and BT in (b.term.get("refs") or []) and b.succs and b.succs[0] == e.block]
+        guards = [b for b in fn_.blocks.values() if b.term and any(BT == r_ for r_ in (b.term.get("refs") or [])) and any(cfg.edge_dominates(fn_, b.id, k_, e) for k_ in (0, 1) if len(b.succs) > k_ and b.succs[k_] is not None)]
+        lor_guards = [b for b in fn_.blocks.values() if b.term and any(BT == r_ for r_ in (b.term.get("refs") or [])) and b.succs and b.succs[0] == e.block]
         return bool(guards or lor_guards)
     body_ok = True
     ndec = 0
@@ -222,7 +255,7 @@ def run(ck):
         for r_ in lf.events("return"):
             ndec += 1
             refs_all |= set(r_.get("refs") or [])
-            if BT not in (r_.get("refs") or []):
+            if not any(BT == x_ for x_ in (r_.get("refs") or [])):
                 body_ok = False
     for e in idle_push:
         if guarded_by_body_timeout(cip, e):
@@ -241,10 +274,10 @@ def run(ck):
                 if r_.get("const") is False:
                     continue
                 ndec += 1
-                if not (BT in (r_.get("refs") or []) or guarded_by_body_timeout(g_, r_)):
+                if not (any(BT == x_ for x_ in (r_.get("refs") or [])) or guarded_by_body_timeout(g_, r_)):
                     body_ok = False
     ck.require(ndec >= 2, "idle decisions found: %d" % ndec)
-    head_ok = HT in refs_all
+    head_ok = any(HT == x_ for x_ in refs_all)
     ck.ob("C14-R4", "both-timeouts-tested", body_ok and head_ok, cip.loc, cip, "every phase tests bodyTimeout_ (%s); head phases test headerTimeout_ (%s)" % (body_ok, head_ok))
     tdecl = [d for g_ in creg for d in g_.events("decl") if strip_tmpl(d.get("icall") or "").endswith("ParserImpl::time")]
     tset = [(f2, a) for f2 in prog.funcs.values() if f2.cls == H + "Private::ParserImpl<Pistache::Http::Request>" for a in list(f2.events("assign")) + list(f2.events("init")) + [c for c in f2.events("call") if c.get("op") == "="]
